@@ -559,3 +559,21 @@ Proof.
   destruct (alias_from_format T A i) eqn:E; [right; reflexivity|left].
   split; [apply in_nseq; lia|reflexivity].
 Qed.
+
+(* ------------------------------------------------------------------ emitter API methods name the id they emit *)
+Lemma api_methods_a64 : forall T (ms : list (str * N)) exc,
+  forallb (fun p => existsb (str_eqb (fst p)) exc || str_eqb (name_of T (snd p)) (fst p)) ms = true ->
+  forall m id, In (m, id) ms -> existsb (str_eqb m) exc = true \/ name_of T id = m.
+Proof.
+  intros T ms exc H m id I. pose proof (proj1 (forallb_forall _ _) H (m, id) I) as Q. cbn [fst snd] in Q.
+  apply orb_true_iff in Q. destruct Q as [Q|Q]; [left; exact Q|right].
+  unfold str_eqb in Q. destruct (cmp_str (name_of T id) m) eqn:C; try discriminate. apply cmp_str_eq. exact C.
+Qed.
+
+Lemma api_methods_x86 : forall T A (ms : list (str * N)) exc,
+  forallb (fun p => existsb (str_eqb (fst p)) exc || (x86_string_to_inst_id T A (fst p) =? snd p)) ms = true ->
+  forall m id, In (m, id) ms -> existsb (str_eqb m) exc = true \/ x86_string_to_inst_id T A m = id.
+Proof.
+  intros T A ms exc H m id I. pose proof (proj1 (forallb_forall _ _) H (m, id) I) as Q. cbn [fst snd] in Q.
+  apply orb_true_iff in Q. destruct Q as [Q|Q]; [left; exact Q|right; apply N.eqb_eq; exact Q].
+Qed.
